@@ -135,4 +135,43 @@ WrappedTyped(stride, off) ==
   IF stride = 0 THEN {}
   ELSE OkOnly({T(Un(w, x.a), SpecUnType(w, x.t, Ctx)) : w \in Wrappers, x \in Thin(WT[MaxNodes], stride, off)})
 
+(***************************************************************************)
+(* Wrappers over small conjunctions: w:and_v(v:X, Y) with X up to 2 nodes  *)
+(* and Y a leaf or a key check.  and_v takes its "unit" and "dissat"       *)
+(* behaviour from Y alone, so this is where a wrapper rule that looks only *)
+(* at the wrapper (d:, j:, n:, a:, s:) can go wrong.  Not thinned.         *)
+(***************************************************************************)
+ConjTyped ==
+  OkOnly({T(Bin("and_v", Un("v", x.a), y), TypeOf(Bin("and_v", Un("v", x.a), y), Ctx))
+          : x \in {q \in WTUpTo(IF MaxNodes < 2 THEN MaxNodes ELSE 2) : q.t.b = "B"},
+            y \in {q.a : q \in {r \in WT[1] : r.t.b = "B"}} \cup {Un("c", Leaf("pk_k", 2))}})
+WrappedConj(on) ==
+  IF on = 0 THEN {}
+  ELSE {z \in OkOnly({T(Un(w, c.a), SpecUnType(w, c.t, Ctx)) : w \in Wrappers, c \in ConjTyped}) : KeyCanonical(z.a)}
+
+(***************************************************************************)
+(* Time-lock mixing family (independent of the Afters / Olders universe):  *)
+(* every way of combining two or three signed fragments that each carry    *)
+(* one lock out of {height, time} x {absolute, relative}, under every      *)
+(* conjunction / disjunction / threshold shape, in both orders.            *)
+(***************************************************************************)
+Locks4 == {Leaf("older", 10), Leaf("older", 4194314), Leaf("after", 100), Leaf("after", 500000100)}
+LkB(k, l) == Bin("and_v", Un("v", Un("c", Leaf("pk_k", k))), l)                               \* B, signed, lock l
+LkU(k, l) == Bin("or_i", Leaf("0", 0), Bin("and_v", Un("v", l), Un("c", Leaf("pk_k", k))))   \* B d u, signed, lock l
+LockMixAsts ==
+  UNION {{Bin("and_v", Un("v", LkB(1, a)), LkB(2, c)),
+          Bin("and_b", LkB(1, a), Un("a", LkB(2, c))),
+          Bin("and_b", LkU(1, a), Un("a", LkU(2, c))),
+          Bin("or_i", LkB(1, a), LkB(2, c)),
+          Bin("or_d", LkU(1, a), LkB(2, c)),
+          Bin("or_b", LkU(1, a), Un("a", LkU(2, c))),
+          Bin("or_c", LkU(1, a), Un("v", LkB(2, c))),
+          Thresh(1, <<LkU(1, a), Un("a", LkU(2, c))>>),
+          Thresh(2, <<LkU(1, a), Un("a", LkU(2, c))>>)} : a \in Locks4, c \in Locks4}
+  \cup UNION {{Tern("andor", LkU(1, a), LkB(2, c), LkB(3, d)),
+               Bin("and_v", Un("v", Bin("or_i", LkB(1, a), LkB(2, c))), LkB(3, d)),
+               Bin("and_v", Un("v", LkB(1, a)), Bin("or_i", LkB(2, c), LkB(3, d))),
+               Thresh(2, <<LkU(1, a), Un("a", LkU(2, c)), Un("a", LkU(3, d))>>)} : a \in Locks4, c \in Locks4, d \in Locks4}
+LockMix(on) == IF on = 0 THEN {} ELSE {x.a : x \in OkOnly({T(m, TypeOf(m, Ctx)) : m \in LockMixAsts})}
+
 =============================================================================
